@@ -25,6 +25,6 @@ claim("C14",
       "pairing of two engine runs, Monitor acceptor). NOT proved: the sync manager's decisions after the re-read (only that their inputs are "
       "equal), folder events beyond idempotence/stamps (children re-filing: correspondence only), path-style ids (refuted; correspondence + engine "
       "pairs with adjacent copies only), events delayed ACROSS a quiet point (open finding E-10: the mangler flushes at drains), event filtering, "
-      "provider exceptions during intake. Open findings listed in known_findings.json: E-10, E-13.",
+      "provider exceptions during intake. Open findings listed in known_findings.json: E-10, E-17.",
       "machine-checked proof (Coq) over a hand-written executable model + stepwise differential correspondence + paired real engine runs judged by the Coq monitor",
       "DESIGN.md §6 C14")
